@@ -79,50 +79,52 @@ theorem diff_self_zero (o : DiffOpt) (b : Arr) : IsZero (diff o b b) := by
   exact val_self o y
 
 /-- all entries of a threshold are non-negative -/
-def NonNeg (t : List Rat) : Prop := ∀ x ∈ t, 0 ≤ x
+def NonNeg (t : List Px) : Prop := ∀ tp ∈ t, ∀ x ∈ tp, 0 ≤ x
 
-theorem maxWith_nonneg (thr : List Rat) (a : Arr) (h : NonNeg thr) : NonNeg (maxWith thr a) := by
-  unfold maxWith
-  generalize a.px = l
-  induction thr generalizing l with
-  | nil => intro x hx; simp at hx
-  | cons t thr ih =>
-    cases l with
-    | nil => intro x hx; simp at hx
-    | cons p l =>
-      intro x hx
-      simp only [List.zipWith_cons_cons, List.mem_cons] at hx
-      have ht : 0 ≤ t := h t (by simp)
-      rcases hx with hx | hx
-      · rw [hx]; split_ifs with hle
-        · exact le_trans ht hle
-        · exact ht
-      · exact ih (fun y hy => h y (by simp [hy])) l x hx
+theorem le_maxR_left (t x : Rat) : t ≤ maxR t x := by
+  unfold maxR; split_ifs with h
+  · exact h
+  · exact le_refl _
 
-theorem foldl_maxWith_nonneg (f : Arr → Arr) : ∀ (extras : List Arr) (thr : List Rat), NonNeg thr →
+theorem le_maxR_right (t x : Rat) : x ≤ maxR t x := by
+  unfold maxR; split_ifs with h
+  · exact le_refl _
+  · exact le_of_lt (lt_of_not_ge h)
+
+theorem maxWith_nonneg (thr : List Px) (a : Arr) (h : NonNeg thr) : NonNeg (maxWith thr a) := by
+  intro tp htp x hx
+  obtain ⟨tp0, htp0, p, _, rfl⟩ := mem_zipWith' _ _ _ _ htp
+  obtain ⟨t, ht, y, _, rfl⟩ := mem_zipWith' _ _ _ _ hx
+  exact le_trans (h tp0 htp0 t ht) (le_maxR_left t y)
+
+theorem foldl_maxWith_nonneg (f : Arr → Arr) : ∀ (extras : List Arr) (thr : List Px), NonNeg thr →
     NonNeg (extras.foldl (fun thr b => maxWith thr (f b)) thr)
   | [], thr, h => h
   | b :: extras, thr, h => foldl_maxWith_nonneg f extras _ (maxWith_nonneg thr (f b) h)
 
-theorem cleaningFilter_nonneg (c : Config) (base : Arr) (extras : List Arr) (t : List Rat)
+theorem zerosLike_nonneg (a : Arr) : NonNeg (zerosLike a) := by
+  intro tp htp x hx
+  simp only [zerosLike, List.mem_map] at htp
+  obtain ⟨p, _, rfl⟩ := htp
+  simp only [List.mem_map] at hx
+  obtain ⟨_, _, rfl⟩ := hx
+  exact le_refl _
+
+theorem cleaningFilter_nonneg (c : Config) (base : Arr) (extras : List Arr) (t : List Px)
     (h : cleaningFilter c base extras = some t) : NonNeg t := by
   unfold cleaningFilter at h
   split at h
   · contradiction
   · cases h
-    apply foldl_maxWith_nonneg
-    intro x hx
-    simp [List.mem_replicate] at hx
-    rw [hx.2]
+    exact foldl_maxWith_nonneg (extraSignal c base) _ _ (zerosLike_nonneg _)
 
-theorem clean_zero (t : List Rat) (ht : NonNeg t) (a : Arr) (ha : IsZero a) : IsZero (clean t a) := by
+theorem clean_zero (t : List Px) (ht : NonNeg t) (a : Arr) (ha : IsZero a) : IsZero (clean t a) := by
   intro p hp x hx
   simp only [clean] at hp
-  obtain ⟨q, hq, u, hu, rfl⟩ := mem_zipWith' _ _ _ _ hp
-  simp only [List.mem_map] at hx
-  obtain ⟨y, hy, rfl⟩ := hx
+  obtain ⟨q, hq, tp, htp, rfl⟩ := mem_zipWith' _ _ _ _ hp
+  obtain ⟨y, hy, u, hu, rfl⟩ := mem_zipWith' _ _ _ _ hx
   rw [ha q hq y hy]
-  exact posPart_sub_nonneg (ht u hu)
+  exact posPart_sub_nonneg (ht tp htp u hu)
 
 theorem runStages_zero : ∀ (l : List (StageName × Stage)) (a : Arr),
     (∀ s ∈ l, ∀ x, IsZero x → IsZero (s.2 x).1) → IsZero a → IsZero (runStages l a).1
@@ -211,10 +213,10 @@ end Darsia.Pipeline
 
 namespace Darsia.Pipeline
 
-def stepMax (thr s : List Rat) : List Rat := List.zipWith (fun t x => if t ≤ x then x else t) thr s
+def stepMax (thr s : List Rat) : List Rat := List.zipWith maxR thr s
 
 theorem stepMax_get {thr s : List Rat} {i : Nat} {r : Rat} (h : (stepMax thr s)[i]? = some r) :
-    ∃ t x, thr[i]? = some t ∧ s[i]? = some x ∧ r = (if t ≤ x then x else t) := by
+    ∃ t x, thr[i]? = some t ∧ s[i]? = some x ∧ r = maxR t x := by
   unfold stepMax at h
   rw [List.getElem?_zipWith] at h
   cases ht : thr[i]? with
@@ -233,10 +235,7 @@ theorem foldl_stepMax_mono : ∀ (signals : List (List Rat)) (acc : List Rat) (i
     simp only [List.foldl_cons] at h
     obtain ⟨m, hm, hle⟩ := foldl_stepMax_mono rest _ i r h
     obtain ⟨t, x, ht, _, rfl⟩ := stepMax_get hm
-    refine ⟨t, ht, le_trans ?_ hle⟩
-    split_ifs with hc
-    · exact hc
-    · exact le_refl _
+    exact ⟨t, ht, le_trans (le_maxR_left t x) hle⟩
 
 theorem foldl_stepMax_ge : ∀ (signals : List (List Rat)) (acc : List Rat) (s : List Rat), s ∈ signals →
     ∀ (i : Nat) (r x : Rat), (signals.foldl stepMax acc)[i]? = some r → s[i]? = some x → x ≤ r
@@ -247,28 +246,9 @@ theorem foldl_stepMax_ge : ∀ (signals : List (List Rat)) (acc : List Rat) (s :
     · obtain ⟨m, hm, hle⟩ := foldl_stepMax_mono rest _ i r h
       obtain ⟨t, x', _, hx', rfl⟩ := stepMax_get hm
       rw [hx] at hx'; cases hx'
-      refine le_trans ?_ hle
-      split_ifs with hc
-      · exact le_refl _
-      · exact le_of_lt (lt_of_not_ge hc)
+      exact le_trans (le_maxR_right t x) hle
     · exact foldl_stepMax_ge rest _ s hin i r x h hx
 
-/-- the accumulated threshold dominates every reduced extra-baseline signal, is non-negative, ... -/
-theorem accumulate_ge (n : Nat) (signals : List (List Rat)) (s : List Rat) (hs : s ∈ signals) (i : Nat) (r x : Rat)
-    (h : (accumulate n signals)[i]? = some r) (hx : s[i]? = some x) : x ≤ r :=
-  foldl_stepMax_ge signals _ s hs i r x h hx
-
-theorem accumulate_nonneg (n : Nat) (signals : List (List Rat)) (i : Nat) (r : Rat)
-    (h : (accumulate n signals)[i]? = some r) : 0 ≤ r := by
-  obtain ⟨a0, ha, hle⟩ := foldl_stepMax_mono signals _ i r h
-  have : a0 = 0 := by
-    rw [List.getElem?_replicate] at ha
-    split at ha
-    · cases ha; rfl
-    · contradiction
-  rw [this] at hle; exact hle
-
-/-- ... and is attained: each entry is 0 or the entry of one of the signals (it is the running maximum) -/
 theorem foldl_stepMax_attained : ∀ (signals : List (List Rat)) (acc : List Rat) (i : Nat) (r : Rat),
     (signals.foldl stepMax acc)[i]? = some r → acc[i]? = some r ∨ ∃ s ∈ signals, s[i]? = some r
   | [], _, _, _, h => Or.inl h
@@ -276,31 +256,165 @@ theorem foldl_stepMax_attained : ∀ (signals : List (List Rat)) (acc : List Rat
     simp only [List.foldl_cons] at h
     rcases foldl_stepMax_attained rest _ i r h with hm | ⟨s, hs, hsr⟩
     · obtain ⟨t, x, ht, hx, e⟩ := stepMax_get hm
+      unfold maxR at e
       split_ifs at e with hc
       · exact Or.inr ⟨s0, by simp, by rw [hx, e]⟩
       · exact Or.inl (by rw [ht, e])
     · exact Or.inr ⟨s, by simp [hs], hsr⟩
 
+/-- row-wise step on per-channel thresholds -/
+def stepMax2 (thr s : List Px) : List Px := List.zipWith (fun tp p => List.zipWith maxR tp p) thr s
+
+/-- pixel `i` of the accumulated threshold is the scalar accumulation over pixel `i` of all signals -/
+theorem foldl_stepMax2_row : ∀ (sigs : List (List Px)) (acc : List Px) (i : Nat) (row : Px),
+    (sigs.foldl stepMax2 acc)[i]? = some row →
+      ∃ a0 rows, acc[i]? = some a0 ∧ List.Forall₂ (fun s r => s[i]? = some r) sigs rows ∧ row = rows.foldl stepMax a0
+  | [], acc, i, row, h => ⟨row, [], h, List.Forall₂.nil, rfl⟩
+  | s :: rest, acc, i, row, h => by
+    simp only [List.foldl_cons] at h
+    obtain ⟨a1, rows', h1, hf, rfl⟩ := foldl_stepMax2_row rest _ i row h
+    unfold stepMax2 at h1
+    rw [List.getElem?_zipWith] at h1
+    cases ha : acc[i]? with
+    | none => simp [ha] at h1
+    | some a0 =>
+      cases hs : s[i]? with
+      | none => simp [ha, hs] at h1
+      | some r0 =>
+        simp [ha, hs] at h1
+        subst h1
+        exact ⟨a0, r0 :: rows', rfl, List.Forall₂.cons hs hf, rfl⟩
+
+theorem forall2_mem {α β} {R : α → β → Prop} : ∀ {l : List α} {m : List β}, List.Forall₂ R l m →
+    (∀ a ∈ l, ∃ b ∈ m, R a b) ∧ (∀ b ∈ m, ∃ a ∈ l, R a b)
+  | _, _, .nil => ⟨by simp, by simp⟩
+  | _, _, .cons h t => by
+    obtain ⟨i1, i2⟩ := forall2_mem t
+    constructor
+    · intro a ha
+      rcases List.mem_cons.mp ha with rfl | ha
+      · exact ⟨_, by simp, h⟩
+      · obtain ⟨b, hb, r⟩ := i1 a ha; exact ⟨b, by simp [hb], r⟩
+    · intro b hb
+      rcases List.mem_cons.mp hb with rfl | hb
+      · exact ⟨_, by simp, h⟩
+      · obtain ⟨a, ha, r⟩ := i2 b hb; exact ⟨a, by simp [ha], r⟩
+
+/-- the accumulated threshold: entry (i, j) is non-negative, dominates entry (i, j) of every signal and is attained -/
+theorem accumulate_spec (signals : List (List Px)) (i j : Nat) (row : Px) (t : Rat)
+    (hrow : (accumulate signals)[i]? = some row) (ht : row[j]? = some t) :
+    0 ≤ t ∧ (∀ s ∈ signals, ∀ p x, s[i]? = some p → p[j]? = some x → x ≤ t) ∧
+    (t = 0 ∨ ∃ s ∈ signals, ∃ p, s[i]? = some p ∧ p[j]? = some t) := by
+  obtain ⟨a0, rows, ha0, hf, rfl⟩ := foldl_stepMax2_row signals _ i row hrow
+  obtain ⟨m1, m2⟩ := forall2_mem hf
+  have hzero : ∀ z, a0[j]? = some z → z = 0 := by
+    intro z hz
+    rw [List.getElem?_map] at ha0
+    cases hh : (signals.headD [])[i]? with
+    | none => rw [hh] at ha0; simp at ha0
+    | some p0 =>
+      rw [hh] at ha0
+      simp only [Option.map_some, Option.some.injEq] at ha0
+      subst ha0
+      rw [List.getElem?_map] at hz
+      cases hp : p0[j]? with
+      | none => rw [hp] at hz; simp at hz
+      | some _ => rw [hp] at hz; simp at hz; exact hz.symm
+  refine ⟨?_, ?_, ?_⟩
+  · obtain ⟨z, hz, hle⟩ := foldl_stepMax_mono rows a0 j t ht
+    rw [hzero z hz] at hle; exact hle
+  · intro s hs p x hp hx
+    obtain ⟨r, hr, hsr⟩ := m1 s hs
+    rw [hp] at hsr; cases hsr
+    exact foldl_stepMax_ge rows a0 p hr j t x ht hx
+  · rcases foldl_stepMax_attained rows a0 j t ht with h | ⟨r, hr, hrt⟩
+    · exact Or.inl (hzero t h)
+    · obtain ⟨s, hs, hsr⟩ := m2 r hr
+      exact Or.inr ⟨s, hs, r, hsr, hrt⟩
+
 /-- `find_cleaning_filter` is this accumulation over the reduced differences of the extra baselines -/
 theorem cleaningFilter_eq_accumulate (c : Config) (base : Arr) (e : Arr) (extras : List Arr) :
     cleaningFilter c base (e :: extras) =
-      some (accumulate base.px.length ((e :: extras).map fun b =>
-        (applyOpt c.reduction (diff c.opt base b)).px.map (·.headD 0))) := by
-  simp only [cleaningFilter, accumulate, List.foldl_map]
+      some (accumulate ((e :: extras).map fun b => (extraSignal c base b).px)) := by
+  simp only [cleaningFilter, accumulate, List.map_cons, List.headD_cons, zerosLike, maxWith]
   congr 1
-  have : ∀ (l : List Arr) (acc : List Rat),
-      List.foldl (fun thr b => maxWith thr (applyOpt c.reduction (diff c.opt base b))) acc l =
-      List.foldl (fun thr b => List.zipWith (fun t x => if t ≤ x then x else t) thr
-        ((applyOpt c.reduction (diff c.opt base b)).px.map (·.headD 0))) acc l := by
-    intro l
-    induction l with
-    | nil => intro acc; rfl
-    | cons b l ih =>
-      intro acc
-      simp only [List.foldl_cons]
-      rw [ih]
-      congr 1
-      simp only [maxWith, List.zipWith_map_right]
-  exact this _ _
+  simp only [List.foldl_cons, List.foldl_map]
+
+end Darsia.Pipeline
+
+namespace Darsia.Pipeline
+
+/-! ### state machine -/
+
+theorem updates_thr (st : AState) : ∀ us : List Arr, (us.foldl (fun s u => s.update (some u)) st).thr = st.thr
+  | [] => rfl
+  | u :: us => by
+    simp only [List.foldl_cons]
+    rw [updates_thr _ us]; rfl
+
+theorem updates_base (st : AState) (us : List Arr) (b : Arr) :
+    ((us ++ [b]).foldl (fun s u => s.update (some u)) st).base = some b := by
+  rw [List.foldl_append]
+  rfl
+
+/-! ### buffers -/
+
+theorem runStagesOp_frame : ∀ (l : List (StageName × Stage)) (h : List Arr) (cur n : Nat), n ≤ cur → cur < h.length →
+    n ≤ (runStagesOp l h cur).2 ∧ (runStagesOp l h cur).2 < (runStagesOp l h cur).1.length ∧
+    ∀ a, a < n → (runStagesOp l h cur).1[a]? = h[a]?
+  | [], h, cur, n, h1, h2 => ⟨h1, h2, fun _ _ => rfl⟩
+  | (_, s) :: rest, h, cur, n, h1, h2 => by
+    simp only [runStagesOp]
+    obtain ⟨r1, r2, r3⟩ := runStagesOp_frame rest (h.set cur (s ((h[cur]?).getD emptyArr)).2 ++ [(s ((h[cur]?).getD emptyArr)).1])
+      h.length n (by omega) (by simp)
+    refine ⟨r1, r2, fun a ha => ?_⟩
+    rw [r3 a ha, List.getElem?_append_left (by simp; omega), List.getElem?_set_ne (by omega)]
+
+theorem runStagesOp_value : ∀ (l : List (StageName × Stage)) (h : List Arr) (cur : Nat) (a : Arr), h[cur]? = some a →
+    (runStagesOp l h cur).1[(runStagesOp l h cur).2]? = some (runStages l a).1
+  | [], h, cur, a, ha => ha
+  | (n, s) :: rest, h, cur, a, ha => by
+    simp only [runStagesOp, runStages, ha, Option.getD_some]
+    apply runStagesOp_value rest
+    rw [List.getElem?_append_right (by simp)]
+    simp
+
+/-- with the deep copy, whatever the stages do to the buffers they are handed: the caller's probe (cell 0) and the
+stored baseline (cell 1) are unchanged, and the returned array holds the value of the functional specification -/
+theorem callOp_deep (c : Config) (k : Kind) (st : AState) (probe : Arr) :
+    (callOp true c st probe).1[0]? = some probe ∧
+    (∀ b, st.base = some b → (callOp true c st probe).1[1]? = some b) ∧
+    (callOp true c st probe).1[(callOp true c st probe).2]? = some (callSt c k st probe).out := by
+  unfold callOp callSt
+  cases hb : st.base with
+  | some b =>
+    simp only [Option.toList, List.length_append, List.length_cons, List.length_nil, if_true]
+    have hcp : (([probe] ++ [b]) ++ [probe])[(0 + 1 + 1)]? = some probe := by simp
+    have f := runStagesOp_frame (stageList c st.thr) ([probe] ++ [b] ++ [probe] ++ [diff c.opt b probe]) 3 2 (by omega) (by simp)
+    refine ⟨?_, ?_, ?_⟩
+    · simpa using f.2.2 0 (by omega)
+    · intro b' hb'; cases hb'
+      simpa using f.2.2 1 (by omega)
+    · have := runStagesOp_value (stageList c st.thr) ([probe] ++ [b] ++ [probe] ++ [diff c.opt b probe]) 3 (diff c.opt b probe) (by simp)
+      simpa using this
+  | none =>
+    simp only [Option.toList, List.append_nil, List.length_cons, List.length_nil, if_true]
+    by_cases hp : c.opt = .plain
+    · simp only [hp, if_true]
+      have f := runStagesOp_frame (stageList c st.thr) ([probe] ++ [probe]) 1 1 (by omega) (by simp)
+      refine ⟨?_, (fun b hb' => by cases hb'), ?_⟩
+      · simpa using f.2.2 0 (by omega)
+      · have := runStagesOp_value (stageList c st.thr) ([probe] ++ [probe]) 1 probe (by simp)
+        have hd : diffNoBase DiffOpt.plain probe = probe := by
+          cases probe with
+          | mk sc px =>
+            simp only [diffNoBase, DiffOpt.val, sub_zero, List.map_id']
+        simpa [hp, hd] using this
+    · simp only [hp, if_false]
+      have f := runStagesOp_frame (stageList c st.thr) ([probe] ++ [probe] ++ [diffNoBase c.opt probe]) 2 1 (by omega) (by simp)
+      refine ⟨?_, (fun b hb' => by cases hb'), ?_⟩
+      · simpa using f.2.2 0 (by omega)
+      · have := runStagesOp_value (stageList c st.thr) ([probe] ++ [probe] ++ [diffNoBase c.opt probe]) 2 (diffNoBase c.opt probe) (by simp)
+        simpa using this
 
 end Darsia.Pipeline
